@@ -98,6 +98,12 @@ def run(ctx):
         if got != want:
             ctx.fail(f"{exprs.show(t)}|{tuple(sorted(rho.items()))}|outcome", {"expression": exprs.show(t), "rc": rho}, f"(fulfilled, conditional) = {want}", str(got),
                      "oracle: reported outcome differs from the one the compositional state stands for")
+    # the assignment delivered through ahbicht's own content-evaluation-result based evaluators, one evaluation after the other (fresh body / one body updated in place)
+    from vlib import cerconc, evalimpl
+
+    ctx.add_eval(cerconc.rc_history_oracle(ctx, "oracle: the outcome of requirement_constraint_evaluation is the one of THIS evaluation's assignment, whatever was evaluated before "
+                                                "and however the content evaluation result is handed over", n_expr=6 if ctx.quick else 60))
+    evalimpl._configured = False  # pylint: disable=protected-access
     # the same outcome when the user's asynchronous evaluators really suspend (one key slower than the others, ...): last, it re-configures the injector
     from vlib import latency
 
